@@ -258,3 +258,91 @@ func (o *Once) Do(f func()) {
 		f()
 	}
 }
+
+// Pool mirrors sync.Pool: Get may return any object handed to Put earlier (most recent first) or a
+// fresh one; both are scheduling points.
+type Pool struct {
+	New        func() any
+	items      []any
+	registered bool
+}
+
+func (p *Pool) register() {
+	if !p.registered {
+		p.registered = true
+		csched.OnRunStart(func() { p.items = nil })
+	}
+}
+
+func (p *Pool) Get() any {
+	p.register()
+	csched.Yield("Pool.Get")
+	if n := len(p.items); n > 0 {
+		x := p.items[n-1]
+		p.items = p.items[:n-1]
+		return x
+	}
+	if p.New != nil {
+		return p.New()
+	}
+	return nil
+}
+
+func (p *Pool) Put(x any) {
+	p.register()
+	csched.Yield("Pool.Put")
+	p.items = append(p.items, x)
+}
+
+// Map mirrors the part of sync.Map that is commonly used; every operation is one atomic step
+// after a scheduling point.
+type Map struct {
+	m     map[any]any
+	order []any
+}
+
+func (m *Map) Load(k any) (any, bool) {
+	csched.Yield("Map.Load")
+	v, ok := m.m[k]
+	return v, ok
+}
+
+func (m *Map) Store(k, v any) {
+	csched.Yield("Map.Store")
+	if m.m == nil {
+		m.m = map[any]any{}
+	}
+	if _, ok := m.m[k]; !ok {
+		m.order = append(m.order, k)
+	}
+	m.m[k] = v
+}
+
+func (m *Map) LoadOrStore(k, v any) (any, bool) {
+	csched.Yield("Map.LoadOrStore")
+	if old, ok := m.m[k]; ok {
+		return old, true
+	}
+	if m.m == nil {
+		m.m = map[any]any{}
+	}
+	m.order = append(m.order, k)
+	m.m[k] = v
+	return v, false
+}
+
+func (m *Map) Delete(k any) {
+	csched.Yield("Map.Delete")
+	delete(m.m, k)
+}
+
+func (m *Map) Range(f func(k, v any) bool) {
+	csched.Yield("Map.Range")
+	for _, k := range append([]any(nil), m.order...) {
+		if v, ok := m.m[k]; ok {
+			if !f(k, v) {
+				return
+			}
+		}
+	}
+}
